@@ -154,7 +154,9 @@ pub fn c15(run: &mut Run, workers: &[String]) -> Stats {
             match mine.get(&k) {
                 Some(&m) => {
                     compared += 1;
-                    if m != d {
+                    if m == c06::UNDECIDED || d == c06::UNDECIDED {
+                        st.add("patterns_not_compared_fuel", 1);
+                    } else if m != d {
                         differing.push(k);
                     }
                 }
